@@ -294,6 +294,8 @@ def rewrite_crash_worker(ctx, job):
             spec["crash"] = cp
         return fsx.run(spec, ctx.dir)
 
+    _raw_run_one = run_one
+    run_one = lambda cp: fsx.confirmed(lambda: _raw_run_one(cp))
     probe = run_one(None)
     steps = [{"sys": s_["sys"], "len": s_["len"]} for s_ in probe["steps"] if s_.get("step") is not None]
     cps = [c for c in crash_points(steps) if c["tear"] is None or c["tear"] in (0, 1, 2048, 4096)]
